@@ -26,6 +26,7 @@ reasons={
 'C11-a':'design-level: initial STANDBY of aggregators without critical descendants',
 'C11-b':'design-level: the leaf must hand over the incoming value (handing over the cache loses ERROR, seeded change C03-1), so an overtaken ERROR can be merged late',
 'C16-a':'protocol-level: after a transport error the executor cannot know the device state',
+'C20-a':'file backend only: YamlSource.Exists answering yes for folders is tested behaviour of the repository suite (source_test.go), and the caller-side cure costs the production Consul backend one more KV round trip per look-up; a proper repair is an entry-existence question of its own in the Source interface',
 'C17-b':'hook tasks only, by design: hooks may run after KILL and are bounded by their own timeout',
 'C17-j':'residue of C17-e after the nil-client repair: KILL before the gRPC dial returned is refused; a repair needs state shared between Launch and Kill and a cancellable dial',
 }
